@@ -310,10 +310,31 @@ def extra_families(res, tier, rnd):
                       P.DO("kill"), P.W("returned")]
             scs.append(P.scenario(len(scs), script, opts={"fps": 120, "filter": flt}, update={"u:1": {"cmd": seq(depth, 100)}}, parallel_ok=True, watchdog_ms=4000))
             metas.append({"family": "nested-sequence", "verdict": verdict, "depth": depth})
+    for kind, seq_on in (("enteralt", b"\x1b[?1049h"), ("pasteoff", None), ("focuson", b"\x1b[?1004h")):
+        for verdict in ("drop", "keep"):
+            # a mode request sent while the application has released the terminal is a message like any other
+            flt = {"drop": ["b:" + kind]} if verdict == "drop" else {}
+            script = [P.W("started"), P.W("idle"), P.DO("release-terminal"), P.DO("send", msg=P.B(kind)), P.DO("sleep", us=10000), P.W("idle"),
+                      P.DO("restore-terminal"), P.DO("sleep", us=30000), P.W("idle"), P.DO("send", msg=P.U(5)), P.W("idle"), P.DO("kill"), P.W("returned")]
+            scs.append(P.scenario(len(scs), script, opts={"fps": 120, "filter": flt}, parallel_ok=True, watchdog_ms=4000))
+            metas.append({"family": "released-mode", "kind": kind, "verdict": verdict})
     results, _ = P.run_scenarios("C16_extra", scs, timeout=600)
     bad = []
     for m, r in zip(metas, results):
         ev = r["events"]
+        if m["family"] == "released-mode" and not (P.machinery_problem(r) or not r["run_returned"]):
+            fb = [e for e in ev if e["ev"] == "FilterBegin" and e.get("key") == "b:" + m["kind"]]
+            ub = [e.get("key") for e in ev if e["ev"] == "UpdateBegin"]
+            seq_on = {"enteralt": b"\x1b[?1049h", "focuson": b"\x1b[?1004h"}.get(m["kind"])
+            after = bytes(r["output"])       # (these programs start without the mode: its switch-on sequence is not in the start-up output)
+            if len(fb) != 1:
+                bad.append(("C16:released-mode", "the mode request %s sent while the terminal was released was shown to the filter %d times" % (m["kind"], len(fb)), {"meta": m, "updates": ub}))
+            elif m["verdict"] == "drop" and ("b:" + m["kind"] in ub or (seq_on and seq_on in after)):
+                bad.append(("C16:released-mode", "the filter dropped the mode request %s (sent while the terminal was released), yet it %s" %
+                            (m["kind"], "reached Update" if "b:" + m["kind"] in ub else "took effect on the terminal"), {"meta": m, "updates": ub}))
+            elif m["verdict"] == "keep" and ub.count("b:" + m["kind"]) != 1:
+                bad.append(("C16:released-mode", "the mode request %s (kept by the filter, sent while the terminal was released) reached Update %d times" % (m["kind"], ub.count("b:" + m["kind"])), {"meta": m, "updates": ub}))
+            continue
         if m["family"] == "nested-sequence" and not (P.machinery_problem(r) or not r["run_returned"]):
             fb = [e for e in ev if e["ev"] == "FilterBegin"]
             ub = [e.get("key") for e in ev if e["ev"] == "UpdateBegin"]
